@@ -95,6 +95,22 @@ def run_concrete(pid, repo, tier, seed, cexfile=None, timeout=3000):
         return json.load(f)
 
 
+def normkey(name):
+    """obligation name without line numbers and path ids"""
+    import re
+    n = name.split("#")[0]
+    n = re.sub(r"@\d+", "", n)
+    return n
+
+
+def load_baseline():
+    p = os.path.join(ROOT, "baseline", "obligations.json")
+    if not os.path.exists(p):
+        return {}
+    with open(p) as f:
+        return json.load(f)
+
+
 def match_known(item, known, pid):
     key = item.get("finding_key") or ""
     for k in known.get("findings", []):
@@ -113,6 +129,7 @@ def main(argv=None):
     ap.add_argument("--repo", default=os.environ.get("PYVC_REPO", "/repo"))
     ap.add_argument("--replay", default=None)
     ap.add_argument("--no-concrete", action="store_true")
+    ap.add_argument("--update-baseline", action="store_true")
     a = ap.parse_args(argv)
     seed = int(os.environ.get("VERIF_SEED", "0") or 0)
     t_start = time.time()
@@ -134,8 +151,41 @@ def main(argv=None):
 
     canaries = [o for o in obs if o.kind == "canary"]
     real = [o for o in obs if o.kind != "canary"]
+    # an obligation left open is retried once with a 4x budget (verdicts must
+    # not flip under load)
+    retry = [o for o in real if o.status not in ("sat", "unsat")]
+    if retry:
+        from . import solve
+        old_t = solve.Z3_TIMEOUT_MS, solve.CVC5_TIMEOUT_MS
+        solve.Z3_TIMEOUT_MS, solve.CVC5_TIMEOUT_MS = old_t[0] * 4, old_t[1] * 4
+        try:
+            solve.discharge_text(retry, procs=min(8, len(retry)))
+        finally:
+            solve.Z3_TIMEOUT_MS, solve.CVC5_TIMEOUT_MS = old_t
+    baseline = load_baseline().get(pid, {})
+    if a.update_baseline:
+        keys = {}
+        for o in real:
+            if o.status == "unsat":
+                keys[normkey(o.name)] = keys.get(normkey(o.name), 0) + 1
+        for o in real:
+            if o.status != "unsat":
+                keys.pop(normkey(o.name), None)
+        allb = load_baseline()
+        allb[pid] = keys
+        with open(os.path.join(ROOT, "baseline", "obligations.json"), "w") as f:
+            json.dump(allb, f, indent=0, sort_keys=True)
+        baseline = keys
     refuted = [o for o in real if o.status == "sat"]
     unknown = [o for o in real if o.status not in ("sat", "unsat")]
+    # an obligation that is discharged on the unchanged tree (committed
+    # baseline) and can no longer be discharged is a violation of that named
+    # obligation (reported without a failing input)
+    regressed = [o for o in unknown if normkey(o.name) in baseline]
+    unknown = [o for o in unknown if normkey(o.name) not in baseline]
+    for o in regressed:
+        o.regressed = True
+    refuted = refuted + regressed
     discharged = [o for o in real if o.status == "unsat"]
     by_backend = {}
     for o in discharged:
@@ -196,7 +246,13 @@ def main(argv=None):
             json.dump({"property": pid, "obligation": o.name,
                        "function": o.func, "kind": o.kind, "line": o.line,
                        "solver": {"backend": o.backend, "status": o.status,
-                                  "model": o.model},
+                                  "model": o.model,
+                                  "regressed": bool(getattr(o, "regressed",
+                                                            False)),
+                                  "note": "discharged on the unchanged tree "
+                                          "(baseline/obligations.json), not "
+                                          "dischargeable now" if getattr(
+                                              o, "regressed", False) else ""},
                        "replayed_input": hit,
                        "note": "refuted verification condition generated "
                                "from the current source"}, f, indent=1)
